@@ -298,6 +298,9 @@ func init() {
 			o.MaxPieceLen = 256 << 10
 		}
 		l := gen.RandomLayout(r, o)
+		if r.Chance(0.15) {
+			l = manyFilesLayout(r) // info dictionary larger than one 16 KiB metadata piece
+		}
 		np := numPiecesOf(l)
 		sp := &SeedPlan{Layout: l, Net: netCfg(r), Dur: r.Dur(20*time.Second, 120*time.Second)}
 		k := Knobs{}
@@ -334,6 +337,7 @@ func init() {
 			if b.LeechMode == "honest" {
 				b.LeechMode = ""
 			}
+			b.FetchMeta = b.Ext && r.Chance(0.5)
 			ps := PeerSpec{Name: fmt.Sprintf("l%d", i), B: b, Mode: "dial", At: r.Dur(0, 5*time.Second), Redial: r.Dur(time.Second, 10*time.Second)}
 			if r.Chance(0.15) {
 				ps.ResetAfterBytes = int64(r.Range(100, 300000))
